@@ -352,6 +352,7 @@ pub fn ring_world(r: &mut Rng, tier: Tier, o: &RingOpts) -> (WorldCfg, OracleCfg
             Tier::Thorough => 6_000_000,
         },
         log_all: false,
+        fault_deadline_us: 0,
     };
     let oracle = OracleCfg {
         quiet_from_us: quiet_from,
@@ -361,6 +362,396 @@ pub fn ring_world(r: &mut Rng, tier: Tier, o: &RingOpts) -> (WorldCfg, OracleCfg
         extra: vec![],
     };
     (world, oracle)
+}
+
+
+// ------------------------------------------------------------------------------------------
+// engine *dp*
+
+pub struct DpOpts {
+    pub n_min: usize,
+    pub n_max: usize,
+    /// Wire faults (storm) in a window.
+    pub wire_faults: bool,
+    /// Byzantine replies, fault flags, power cycles of the reference slaves.
+    pub slave_faults: bool,
+    /// Slaves that deliberately do not match the configured options.
+    pub mismatch: bool,
+    pub user_writes: bool,
+    pub user_diag: bool,
+    pub user_reset: bool,
+    pub second_master: bool,
+    pub second_app: bool,
+    /// Emphasise extreme process-image lengths.
+    pub big_images: bool,
+    /// Fault phase followed by a fault-free phase that is long enough for the liveness bound.
+    pub quiet_phase: bool,
+    pub take_every_poll: bool,
+}
+
+fn pick_len(r: &mut Rng, big: bool, max: usize) -> usize {
+    let v = if big {
+        match r.below(8) {
+            0 => 0,
+            1 => 1,
+            2 => max,
+            3 => max - 1,
+            4 => r.range(2, 16) as usize,
+            _ => r.range(0, max as u64) as usize,
+        }
+    } else {
+        match r.below(8) {
+            0 => 0,
+            1 => 1,
+            2 => r.range(17, 64) as usize,
+            3 => max,
+            _ => r.range(1, 16) as usize,
+        }
+    };
+    v.min(max)
+}
+
+fn byz_shape(r: &mut Rng, master: u8) -> ByzShape {
+    match r.below(20) {
+        0 => ByzShape::Silent,
+        1 => ByzShape::Late,
+        2 => ByzShape::WrongSsap,
+        3 => ByzShape::WrongDsap,
+        4 => ByzShape::NoSaps,
+        5 => ByzShape::ShortPdu,
+        6 => ByzShape::LongPdu,
+        7 => ByzShape::EmptyPdu,
+        8 | 9 => ByzShape::Status(*r.pick(&[0u8, 1, 2, 3, 8, 9, 10, 12, 13])),
+        10 => ByzShape::ScInsteadOfData,
+        11 => ByzShape::DataInsteadOfSc,
+        12 => ByzShape::WrongSource(r.below(127) as u8),
+        13 => ByzShape::WrongDest(if r.chance(1, 2) { master.wrapping_add(1) & 0x7F } else { r.below(127) as u8 }),
+        14 => ByzShape::Token,
+        15 => ByzShape::Request,
+        16 => {
+            let n = r.range(1, 10) as usize;
+            ByzShape::Garbage(r.bytes(n))
+        }
+        17 => {
+            let n = r.range(1, 4) as usize;
+            ByzShape::Trailing(r.bytes(n))
+        }
+        _ => {
+            // extended diagnostics of every block type incl. malformed headers
+            let n = r.range(1, 12) as usize;
+            let mut e = r.bytes(n);
+            if r.chance(1, 2) {
+                e[0] = *r.pick(&[0x00u8, 0x40, 0x01, 0x41, 0x42, 0x80, 0xC0, 0x3F, 0x7F, 0x02, 0x44]);
+            }
+            ByzShape::ExtDiag(e)
+        }
+    }
+}
+
+pub fn dp_world(r: &mut Rng, tier: Tier, o: &DpOpts) -> (WorldCfg, OracleCfg, Vec<Fault>) {
+    let baud = pick_baud(r);
+    let slot_bits = pick_slot_bits(r, baud);
+    let tslot_us = bit_us(baud, u64::from(slot_bits)).max(1);
+    let hsa = r.range(2, if tier == Tier::Quick { 12 } else { 40 }) as u8;
+    let master = r.below(u64::from(hsa)) as u8;
+    let mut used: Vec<u8> = vec![master];
+    let second_master = if o.second_master && hsa >= 3 && r.chance(1, 3) {
+        let mut a = r.below(u64::from(hsa)) as u8;
+        while a == master {
+            a = r.below(u64::from(hsa)) as u8;
+        }
+        used.push(a);
+        Some(a)
+    } else {
+        None
+    };
+    let extra_us = 0u64;
+    let rx_chunk_us = 0u64;
+    let p_cap = max_poll_period_us(baud, slot_bits, extra_us);
+    let tsdr_cap = max_tsdr_cap(baud, slot_bits, extra_us);
+    let n = r.range(o.n_min as u64, o.n_max as u64) as usize;
+    let retry = match r.below(4) {
+        0 => 1,
+        1 => r.range(2, 4) as u8,
+        2 => r.range(1, 15) as u8,
+        _ => 1,
+    };
+    let watchdog_ms = if r.chance(1, 2) {
+        Some(match r.below(4) {
+            0 => 10,
+            1 => r.range(10, 2550) as u32,
+            2 => r.range(2550, 650_000) as u32,
+            _ => *r.pick(&[100u32, 1000, 650_000, 2560, 25_500]),
+        })
+    } else {
+        None
+    };
+    let min_tsdr = r.range(11, 11 + u64::from(tsdr_cap.saturating_sub(11)).min(40)) as u8;
+
+    let mut peripherals = Vec::new();
+    let mut slaves = Vec::new();
+    let mut cycle_bits: u64 = 3 * u64::from(slot_bits) + 1000;
+    for _ in 0..n {
+        let mut a = r.below(126) as u8;
+        while used.contains(&a) {
+            a = r.below(126) as u8;
+        }
+        used.push(a);
+        let in_len = pick_len(r, o.big_images, 244);
+        let out_len = pick_len(r, o.big_images, 244);
+        let up_len = match r.below(6) {
+            0 => 0,
+            1 => 237,
+            _ => r.range(0, 24) as usize,
+        };
+        let cfg_len = match r.below(6) {
+            0 => 1,
+            1 => 244,
+            _ => r.range(1, 16) as usize,
+        };
+        let user_prm = if r.chance(1, 30) { None } else { Some(r.bytes(up_len)) };
+        let config = if r.chance(1, 30) { None } else { Some(r.bytes(cfg_len)) };
+        let ident = r.next_u64() as u16;
+        let max_tsdr = r.range(u64::from(min_tsdr), u64::from(tsdr_cap).max(u64::from(min_tsdr))) as u16;
+        let pc = PeriphCfg {
+            addr: a,
+            ident,
+            sync: r.chance(1, 4),
+            freeze: r.chance(1, 4),
+            groups: if r.chance(1, 2) { 0 } else { r.byte() },
+            max_tsdr,
+            fail_safe: r.chance(1, 2),
+            user_prm: user_prm.clone(),
+            config: config.clone(),
+            in_len,
+            out_len,
+            diag_buf: *r.pick(&[0usize, 0, 6, 16, 64, 244]),
+        };
+        // the slave behind it
+        let mut sc = SlaveCfg {
+            addr: a,
+            ident,
+            dp: true,
+            in_len,
+            out_len,
+            cfg: config.clone().unwrap_or_else(|| vec![0x11]),
+            prm_len: if r.chance(1, 2) { None } else { Some(up_len) },
+            min_tsdr: 11,
+            max_tsdr,
+            power: vec![(0, true)],
+            not_ready_n: if r.chance(1, 4) { r.range(1, 3) as u8 } else { 0 },
+            dh_pm: if r.chance(1, 4) { r.range(5, 200) as u32 } else { 0 },
+            ext_diag: if r.chance(1, 4) {
+                // well-formed device-related block
+                let l = r.range(2, 8) as usize;
+                let mut e = vec![l as u8];
+                e.extend(r.bytes(l - 1));
+                e
+            } else {
+                vec![]
+            },
+            sc_for_empty: r.chance(1, 2),
+            honour_watchdog: r.chance(1, 2),
+        };
+        if o.mismatch && r.chance(1, 6) {
+            match r.below(4) {
+                0 => sc.ident = ident.wrapping_add(1),
+                1 => sc.cfg.push(0x21),
+                2 => sc.prm_len = Some(up_len + 1),
+                _ => sc.in_len = (in_len + 1).min(244),
+            }
+        }
+        match r.below(10) {
+            0 => sc.power = vec![],                                            // never there
+            1 => sc.power = vec![(r.range(1, 400) * tslot_us, true)],          // appears later
+            _ => {}
+        }
+        let turn = (u64::from(retry) + 1) * (11 * (in_len as u64 + out_len as u64 + up_len as u64 + cfg_len as u64 + 40) + u64::from(slot_bits) + 100);
+        cycle_bits += turn;
+        peripherals.push(pc);
+        slaves.push(sc);
+    }
+    // an extra passive responder for the second application
+    let mut second_app = None;
+    if o.second_app && r.chance(1, 3) {
+        second_app = Some(match r.below(3) {
+            0 => AppCfg::LiveList,
+            1 => AppCfg::Scanner,
+            _ => traffic_app(r, &used),
+        });
+        cycle_bits += 2 * (11 * 300 + u64::from(slot_bits));
+    }
+
+    // time line: bring-up, fault window, quiet phase
+    let cycle_us = bit_us(baud, cycle_bits).max(tslot_us);
+    let claim_us = (8 + 2 * u64::from(master.max(second_master.unwrap_or(0)))) * tslot_us + (u64::from(hsa) + 3) * 2 * tslot_us;
+    let t1 = claim_us + r.range(0, 12) * cycle_us / (u64::from(retry) + 1);
+    let win_cycles = r.range(3, if tier == Tier::Quick { 40 } else { 150 });
+    let t2 = t1 + win_cycles * cycle_us / (u64::from(retry) + 1);
+    // population changes of the reference slaves end with the fault window
+    for s in slaves.iter_mut() {
+        for p in s.power.iter_mut() {
+            if p.0 > t2 {
+                p.0 = t1 + (p.0 % (t2 - t1).max(1));
+            }
+        }
+    }
+    let mut faults = Vec::new();
+    if o.wire_faults && r.chance(5, 6) {
+        let level = *r.pick(&[10u32, 30, 60, 100, 200]);
+        faults.push(Fault {
+            trig: Trigger::At(t1),
+            kind: FaultKind::Storm {
+                until_us: t2,
+                drop_pm: r.range(0, u64::from(level)) as u32,
+                flip_pm: r.range(0, u64::from(level)) as u32,
+                rxdrop_pm: r.range(0, u64::from(level) / 2) as u32,
+                trunc_pm: r.range(0, u64::from(level) / 2) as u32,
+                dup_pm: if o.quiet_phase { 0 } else { r.range(0, u64::from(level) / 4) as u32 },
+                seed: r.next_u64(),
+            },
+        });
+    }
+    if o.slave_faults && !slaves.is_empty() {
+        let nf = r.range(0, 8);
+        for _ in 0..nf {
+            let sl = r.below(slaves.len() as u64) as usize;
+            let t = r.range(t1.min(t2 - 1), t2 - 1);
+            let kind = match r.below(6) {
+                0 => {
+                    // power cycle
+                    let back = t + r.range(1, 2 * (u64::from(retry) + 2)) * cycle_us / (u64::from(retry) + 1);
+                    faults.push(Fault { trig: Trigger::At(back.min(t2)), kind: FaultKind::SlavePower { slave: sl, on: true } });
+                    FaultKind::SlavePower { slave: sl, on: false }
+                }
+                1 => FaultKind::SlaveFlag {
+                    slave: sl,
+                    flag: r.pick(&[SlaveFlagKind::PrmFault, SlaveFlagKind::CfgFault, SlaveFlagKind::NotReady, SlaveFlagKind::PrmReq, SlaveFlagKind::StatDiag]).clone(),
+                    count: r.range(1, 3) as u8,
+                },
+                2 => FaultKind::SlaveReset { slave: sl },
+                _ => {
+                    // C07 quantifies over lost or corrupted telegrams, power cycles, fault reports
+                    // and user calls: replies that are late, duplicated or of a foreign kind are
+                    // outside it (they are generated for the safety properties and for C05)
+                    let mut shape = byz_shape(r, master);
+                    while o.quiet_phase && matches!(shape, ByzShape::Late | ByzShape::Token | ByzShape::Request | ByzShape::ScInsteadOfData | ByzShape::DataInsteadOfSc | ByzShape::Trailing(_)) {
+                        shape = byz_shape(r, master);
+                    }
+                    FaultKind::SlaveByz { slave: sl, shape, count: r.range(1, 3) as u8 }
+                }
+            };
+            faults.push(Fault { trig: Trigger::At(t), kind });
+        }
+        // some slaves stay off for good after the window (must be reported Offline)
+        if o.quiet_phase && r.chance(1, 5) {
+            let sl = r.below(slaves.len() as u64) as usize;
+            faults.push(Fault { trig: Trigger::At(t2 - 1), kind: FaultKind::SlavePower { slave: sl, on: false } });
+        }
+    }
+    let user = UserCfg {
+        write_pm: if o.user_writes { *r.pick(&[0u32, 20, 100, 400]) } else { 0 },
+        diag_pm: if o.user_diag { *r.pick(&[0u32, 0, 5, 30, 150]) } else { 0 },
+        reset_pm: if o.user_reset && r.chance(1, 4) { *r.pick(&[1u32, 5]) } else { 0 },
+        reset_inflight_pm: 0,
+        take_every: if o.take_every_poll { 1 } else { *r.pick(&[1u32, 1, 2, 7]) },
+        until_us: if o.quiet_phase { t2 } else { 0 },
+    };
+    // A watchdog shorter than the bus cycle is a user configuration error (the slave keeps
+    // falling back to Wait_Prm); for the liveness check the reference slaves only honour
+    // watchdogs the bus can satisfy.
+    if o.quiet_phase {
+        let need_us = 6 * (cycle_us + if second_master.is_some() { bit_us(baud, 2000) + 4 * tslot_us } else { 0 });
+        if watchdog_ms.map(|ms| u64::from(ms) * 1000 < need_us).unwrap_or(false) {
+            for s in slaves.iter_mut() {
+                s.honour_watchdog = false;
+            }
+        }
+    }
+    let bound_cycles = 4 * (u64::from(retry) + 3) + 8;
+    // a second master takes its share of every rotation
+    let other_share_us = if second_master.is_some() { bit_us(baud, 2000) + 4 * tslot_us } else { 0 };
+    let bound_us = bound_cycles * (cycle_us + other_share_us + 4 * tslot_us);
+    let end_us = if o.quiet_phase { t2 + bound_us + 4 * cycle_us } else { t2 + 12 * cycle_us };
+
+    let mut apps = vec![AppCfg::Dp(DpCfg {
+        slots: if r.chance(1, 2) { None } else { Some(n + r.below(3) as usize) },
+        reserved: 0,
+        peripherals,
+        user,
+        operate_at_us: if r.chance(1, 4) { r.range(1, claim_us) } else { 0 },
+    })];
+    if let Some(a) = second_app {
+        if r.chance(1, 2) {
+            apps.push(a);
+        } else {
+            apps.insert(0, a);
+        }
+    }
+    let mk_station = |r: &mut Rng, addr: u8, apps: Vec<AppCfg>, ttr: u32| {
+        let p_max = match r.below(4) {
+            0 => p_cap,
+            1 => (p_cap / 2).max(1),
+            _ => r.range((p_cap / 4).max(1), p_cap),
+        };
+        StationCfg {
+            addr,
+            slot_bits,
+            hsa,
+            gap: r.range(1, 10) as u8,
+            ttr,
+            retry,
+            min_tsdr,
+            watchdog_ms,
+            p_min_us: if r.chance(1, 2) { p_max } else { (p_max / 2).max(1) },
+            p_max_us: p_max,
+            clock_off_us: if r.chance(1, 2) { 0 } else { r.range_i(0, 1_000_000_000) },
+            skew_ppm: 0,
+            plan: vec![(0, PlanOp::Online)],
+            single_poll_api: apps.len() == 1 && r.chance(1, 2),
+            apps,
+            tx_done: TxDoneCfg::Exact,
+            rx_chunk_us,
+            dup_poll_pm: if r.chance(1, 4) { r.range(1, 50) as u32 } else { 0 },
+            stale_rx: vec![],
+        }
+    };
+    let ttr = match r.below(4) {
+        0 => r.range(256, 3000) as u32, // token hold time runs out in the middle of a cycle
+        1 => r.range(3000, 50_000) as u32,
+        _ => u32::from(hsa) * 5000,
+    };
+    let mut stations = vec![mk_station(r, master, apps, ttr)];
+    if let Some(a) = second_master {
+        let apps2 = if r.chance(1, 2) { vec![] } else { vec![traffic_app(r, &used)] };
+        let ttr2 = r.range(256, 20_000) as u32;
+        let mut s2 = mk_station(r, a, apps2, ttr2);
+        s2.retry = r.range(1, 4) as u8;
+        s2.watchdog_ms = None;
+        stations.push(s2);
+    }
+    let world = WorldCfg {
+        baud,
+        stations,
+        slaves,
+        adversary: None,
+        collision_garbles: r.chance(1, 2),
+        end_us,
+        max_polls: match tier {
+            Tier::Quick => 400_000,
+            Tier::Thorough => 4_000_000,
+        },
+        log_all: false,
+        fault_deadline_us: if o.quiet_phase { t2 } else { 0 },
+    };
+    let oracle = OracleCfg {
+        quiet_from_us: t2,
+        bound_us,
+        stable_us: 0,
+        bound_cycles,
+        extra: vec![],
+    };
+    (world, oracle, faults)
 }
 
 pub fn generate(check: &str, tier: Tier, base_seed: u64, k: u64) -> Scenario {
@@ -383,7 +774,7 @@ pub fn generate(check: &str, tier: Tier, base_seed: u64, k: u64) -> Scenario {
                 ttr_cap_slots: 60,
             };
             let (w, o) = ring_world(&mut r, tier, &o);
-            (w, o, vec![])
+            (w, o, Vec::<Fault>::new())
         }
         "C02" => {
             let o = RingOpts {
@@ -401,7 +792,25 @@ pub fn generate(check: &str, tier: Tier, base_seed: u64, k: u64) -> Scenario {
                 ttr_cap_slots: 30,
             };
             let (w, o) = ring_world(&mut r, tier, &o);
-            (w, o, vec![])
+            (w, o, Vec::<Fault>::new())
+        }
+        "C03" | "C04" | "C07" | "C08" | "C14" => {
+            let o = DpOpts {
+                n_min: if check == "C14" { 0 } else { 1 },
+                n_max: if check == "C14" { 4 } else { 3 },
+                wire_faults: true,
+                slave_faults: true,
+                mismatch: matches!(check, "C03" | "C14"),
+                user_writes: matches!(check, "C04" | "C08" | "C14"),
+                user_diag: true,
+                user_reset: matches!(check, "C08" | "C14"),
+                second_master: matches!(check, "C14" | "C04"),
+                second_app: matches!(check, "C14"),
+                big_images: check == "C04",
+                quiet_phase: check == "C07",
+                take_every_poll: true,
+            };
+            dp_world(&mut r, tier, &o)
         }
         other => panic!("harness: no generator for check {other}"),
     };
